@@ -5,7 +5,7 @@ From Coq Require Extraction.
 From Coq Require Import ExtrOcamlBasic.
 From Coq Require Import List ZArith NArith.
 From Coq.Strings Require Import Byte.
-From OgRek Require Import Base Utf8 GoStrconv PyQuote Float Value PyEq Dict Reader Decoder Typeconv Encoder Norm Insn EncProg PyVM PyVal Bufio DecodeL1 PyVM2.
+From OgRek Require Import Base Utf8 GoStrconv PyQuote Float Value PyEq Dict Reader Decoder Typeconv Encoder Norm Insn EncProg PyVM PyVal Bufio DecodeL1 PyVM2 Dis.
 Extraction Language OCaml.
 Extraction "model.ml"
   Byte.of_N Byte.to_N b2N N2b
@@ -17,4 +17,4 @@ Extraction "model.ml"
   dict_get dict_set dict_del dict_len choose_first ref_get ref_set ref_del
   init_state decode decode_stream has_stale Build_dconfig as_int64 as_bytes as_string
   encode run_w output Build_econfig norm unerase reify erase fits_proto
-  asm iproto sd_step sd_run program pyload pyval_of decode_all1 Build_bst pd_merge qload unfold asm_all.
+  asm iproto sd_step sd_run program pyload pyval_of decode_all1 Build_bst pd_merge qload unfold asm_all dis.
